@@ -264,6 +264,17 @@ def check_scenario(sc, scratch, stats=None):
     import pandas
     df = pandas.DataFrame(copy.deepcopy(A), columns=a_names)
     dfb = pandas.DataFrame(copy.deepcopy(B), columns=b_names) if B is not None else None
+    # the row index of a dataframe is not data: the same records under a named / permuted / string index give the same result
+    variant = (len(A) + len(text)) % 4
+    for d in (df, dfb):
+        if d is None:
+            continue
+        if variant == 1:
+            d.index.name = 'idx'
+        elif variant == 2:
+            d.index = pandas.Index(['r%d' % (len(d) - i) for i in range(len(d))], name='kind')
+        elif variant == 3:
+            d.index = pandas.Index(list(range(len(d), 0, -1)))
     try:
         res = rbql.query_pandas_dataframe(text, df, [], dfb)
         hdr = None if isinstance(res.columns, pandas.RangeIndex) else [str(c) for c in res.columns]
